@@ -6,8 +6,12 @@ NAME="$1"; shift
 DIR="/verif/seeded/$NAME"
 PROPS="$@"
 [ -z "$PROPS" ] && PROPS="$(python3 -c "import json;print(json.load(open('$DIR/meta.json'))['property'])")"
-cd /repo || exit 2
-if ! git diff --quiet; then echo "/repo has uncommitted changes"; exit 2; fi
+# SEED_REPO=<scratch worktree of /repo>: apply the change there and point the check at it (VERIF_REPO) instead of
+# touching /repo (used while a background run is reading /repo)
+REPO="${SEED_REPO:-/repo}"
+[ "$REPO" != "/repo" ] && export VERIF_REPO="$REPO"
+cd "$REPO" || exit 2
+if ! git diff --quiet; then echo "$REPO has uncommitted changes"; exit 2; fi
 PATCH="$DIR/patch.diff"; [ -f "$DIR/patch.rebased.diff" ] && PATCH="$DIR/patch.rebased.diff"
 git apply "$PATCH" || { echo "$NAME: patch does not apply to current /repo"; exit 2; }
 for P in $PROPS; do
@@ -19,4 +23,4 @@ for P in $PROPS; do
   sig=$(echo "$out" | grep "^violation signature" | head -2 | tr '\n' ' ')
   if [ $rc -eq 1 ] && [ $v -ge 1 ]; then echo "$NAME $P CAUGHT $sig"; elif [ $rc -eq 0 ]; then echo "$NAME $P MISSED"; else echo "$NAME $P INCONCLUSIVE rc=$rc $(echo "$out" | tail -3 | tr '\n' ' ')"; fi
 done
-git -C /repo checkout -- .
+git -C "$REPO" checkout -- .
